@@ -3,7 +3,11 @@ PROP = dict(
         module='kernel', pkg='mm/vmm', pkgname='vmm', harness=['vmm/c07_test.go'],
         n=dict(quick=400, thorough=20000),
     extra_runs=[dict(module='kernel', pkg='mm/pmm', pkgname='pmm', harness=['pmm/pmm_test.go', 'pmm/c07pmm_test.go'],
-                     test='TestVerifC07Pmm', n=dict(quick=100, thorough=3000))],
+                     test='TestVerifC07Pmm', n=dict(quick=100, thorough=3000)),
+                dict(module='kernel', pkg='goruntime/gortcopy', pkgname='gortcopy', harness=['gortcopy/c07gort_test.go'],
+                     srccopy=dict(src='kernel/goruntime/bootstrap.go', preamble='gortcopy/preamble.go.txt',
+                                  decls=['mapFn', 'earlyReserveRegionFn', 'memsetFn', 'errRegionSizeOverflow', 'sysReserve', 'sysMap', 'sysAlloc']),
+                     test='TestVerifC07Gort', n=dict(quick=100, thorough=3000))],
     anchors='C07.json', expr_imports=['Firefly.Gen.C07'],
         nontrivial=r'\| 1 ',
         rule='one evaluation = one EarlyReserveRegion / MapRegion / IdentityMapRegion call on the real code, '
